@@ -139,6 +139,11 @@ pub fn check(plan: &Plan, rec: &RunRecord, prop: &'static str, proxy: bool, cell
                 if scripted1 && (e0["class"] != "scripted" || e0["code"] != e1["code"]) {
                     out.push(Finding::new(prop, &format!("{p}.error_value"), r.idx, format!("[{kind}] the handler failed with {} but world 0 surfaced {}", err_brief(e1), err_brief(e0))));
                 }
+                // a StdError that reached the top (from a nested StdError-typed handler, or the chain's
+                // own modules) has a value too: the proxy must surface that value, not a re-wrapped text
+                if proxy && e1["class"] == "std" && (e0["text"] != e1["text"] || !(e0["class"] == "std" || e0["class"] == "own")) {
+                    out.push(Finding::new(prop, &format!("{p}.error_value"), r.idx, format!("[{kind}] the raw operation failed with the StdError {} but the proxy surfaced {}", err_brief(e1), err_brief(e0))));
+                }
                 if !proxy && e0["class"] != e1["class"] {
                     out.push(Finding::new(prop, &format!("{p}.error_class"), r.idx, format!("[{kind}] error classes differ: world 0 {} / world 1 {}", err_brief(e0), err_brief(e1))));
                 }
